@@ -634,11 +634,12 @@ Section StreamInv.
                 | Some _ => {| a_ref := a_ref a; a_since := a_since a ++ [v] |}
                 end
     end.
-  (** every value ever accepted (the ring is not cleared by reset) *)
+  (** the values accepted since the ring was last cleared (reset clears it) *)
   Definition all_step (a : absst) (all : list (sval A)) (e : sev A) : list (sval A) :=
     match e with
     | SUpd v => match a_ref a with None => all | Some _ => all ++ [v] end
-    | _ => all
+    | SReset => []
+    | SFit _ => all
     end.
 
   Definition Inv (s : ms_st A) (a : absst) (all : list (sval A)) : Prop :=
@@ -687,8 +688,9 @@ Section StreamInv.
       split; [exact Hn|]. split; [exact Hq|]. split; [exists pre; exact Hpre | exact Hall].
     - unfold Inv, ms_reset. cbn [fst ms_w ms_ref ms_mmd ms_n ms_q a_ref a_since].
       split; [exact Hww|]. split; [reflexivity|]. split; [intros R E; discriminate|].
-      split; [reflexivity|]. split; [exact Hq|].
-      split; [exists all; symmetry; apply app_nil_r | exact Hall].
+      split; [reflexivity|].
+      split; [rewrite lastn_nil; unfold cq_clear; rewrite (cq_rel_max _ _ _ Hq); apply cq_init_rel; exact Hw|].
+      split; [exists []; reflexivity | constructor].
     - destruct (a_ref a) as [R|] eqn:Ea; try rewrite Ea in Hr.
       + destruct (cq_enqueue_rel w (ms_q s) _ v Hw Hq) as (q' & Heq & Hq').
         rewrite (ms_update_fitted s v R q' _ Hr Heq). cbn [fst].
@@ -893,3 +895,159 @@ Section BatchTop.
     - apply (mmd_py_nokey_R k k_diag chunk X Y Hc Hs Hn Hm).
   Qed.
 End BatchTop.
+
+(** * 10. reset = new instance, exactly, in every number system *)
+Section ResetFresh.
+  Context {A : Arith}.
+  Variable k : pt A -> pt A -> num A.
+  Variable chunk : option Z.
+
+  (** two detector states that differ at most in the cached reference term of an UNFITTED
+      batch detector (the only thing reset leaves behind) *)
+  Definition st_sim (s t : ms_st A) : Prop :=
+    ms_n s = ms_n t /\ ms_q s = ms_q t /\ ms_ref s = ms_ref t /\ ms_w s = ms_w t /\
+    (ms_ref s <> None -> ms_mmd s = ms_mmd t).
+
+  Lemma mb_fit_indep : forall b1 b2 X,
+    snd (mb_fit k chunk b1 X) = snd (mb_fit k chunk b2 X) /\
+    (snd (mb_fit k chunk b1 X) = Ok tt -> fst (mb_fit k chunk b1 X) = fst (mb_fit k chunk b2 X)).
+  Proof.
+    intros b1 b2 X. unfold mb_fit.
+    destruct (check_fit_dims X) as [u|e]; cbn [fst snd]; [|split; [reflexivity | discriminate]].
+    destruct (get_chunks (expand_dims X) (chunk_or chunk (zlen (expand_dims X)))) as [xch|e];
+      cbn [fst snd]; split; try reflexivity; discriminate.
+  Qed.
+
+  Lemma st_sim_step : forall s t e, st_sim s t ->
+    snd (ms_step k chunk s e) = snd (ms_step k chunk t e) /\
+    st_sim (fst (ms_step k chunk s e)) (fst (ms_step k chunk t e)).
+  Proof.
+    intros s t e H. pose proof H as (Hn & Hq & Hr & Hw & Hm). destruct e as [X| |v]; cbn [ms_step].
+    - unfold ms_fit. destruct (check_fit_dims X) as [u|e]; cbn [fst snd].
+      + destruct (mb_fit_indep (ms_mmd s) (ms_mmd t) X) as (Ho & Hs).
+        destruct (mb_fit k chunk (ms_mmd s) X) as [b1 r1] eqn:E1.
+        destruct (mb_fit k chunk (ms_mmd t) X) as [b2 r2] eqn:E2.
+        cbn [fst snd] in Ho, Hs. subst r2.
+        destruct r1 as [u1|e1]; cbn [fst snd].
+        * destruct u1. specialize (Hs eq_refl). subst b2.
+          split; [reflexivity|]. unfold st_sim. cbn [ms_n ms_q ms_ref ms_w ms_mmd]. auto.
+        * split; [reflexivity|]. unfold st_sim. cbn [ms_n ms_q ms_ref ms_w ms_mmd].
+          repeat (split; [assumption|]). intros Hne.
+          specialize (Hm Hne). rewrite Hm in E1. rewrite E1 in E2. inversion E2. reflexivity.
+      + split; [reflexivity | exact H].
+    - split; [reflexivity|]. unfold ms_reset, st_sim. cbn [fst ms_n ms_q ms_ref ms_w ms_mmd].
+      rewrite Hq, Hw. repeat (split; [reflexivity|]). intros Hne. contradiction.
+    - unfold ms_update. rewrite <- Hr.
+      destruct (ms_ref s) as [R|] eqn:Er.
+      + assert (Hmm : ms_mmd s = ms_mmd t) by (apply Hm; discriminate).
+        rewrite <- Hn, <- Hq, <- Hw, <- Hmm.
+        destruct (cq_enqueue (ms_q s) v) as [[q el]|e]; cbn [fst snd].
+        * destruct (ms_n s + 1 <? ms_w s)%Z; cbn [fst snd]; (split; [reflexivity|]);
+            unfold st_sim; cbn [ms_n ms_q ms_ref ms_w ms_mmd]; auto.
+        * split; [reflexivity|]. unfold st_sim. cbn [ms_n ms_q ms_ref ms_w ms_mmd]. auto.
+      + cbn [fst snd]. split; [reflexivity | exact H].
+  Qed.
+
+  Lemma st_sim_run : forall h s t, st_sim s t ->
+    snd (ms_run k chunk s h) = snd (ms_run k chunk t h).
+  Proof.
+    induction h as [|e r IH]; intros s t H; [reflexivity|]. cbn [ms_run].
+    destruct (st_sim_step s t e H) as (Ho & Hs).
+    destruct (ms_step k chunk s e) as [s1 o1]. destruct (ms_step k chunk t e) as [t1 o2].
+    cbn [fst snd] in *. subst o2. specialize (IH s1 t1 Hs).
+    destruct (ms_run k chunk s1 r) as [s2 os1]. destruct (ms_run k chunk t1 r) as [t2 os2].
+    cbn [snd] in *. rewrite IH. reflexivity.
+  Qed.
+
+  (** capacity and window size never change *)
+  Lemma cq_enqueue_max : forall {T} (q q' : cq T) v el, cq_enqueue q v = Ok (q', el) -> q_max q' = q_max q.
+  Proof.
+    intros T q q' v el. unfold cq_enqueue, cq_dequeue.
+    destruct (cq_is_full q); [destruct (cq_is_empty q); [discriminate|]; destruct (q_max q =? 0)%Z eqn:E0; [discriminate|]|];
+      cbn [bind q_max]; try rewrite E0; destruct (q_max q =? 0)%Z; try discriminate;
+      intros H; inversion H; reflexivity.
+  Qed.
+
+  Definition wq_inv (w : Z) (s : ms_st A) : Prop := ms_w s = w /\ q_max (ms_q s) = w.
+
+  Lemma wq_inv_step : forall w s e, wq_inv w s -> wq_inv w (fst (ms_step k chunk s e)).
+  Proof.
+    intros w s e (Hw & Hq). destruct e as [X| |v]; cbn [ms_step].
+    - unfold ms_fit. destruct (check_fit_dims X); cbn [fst]; [|split; assumption].
+      destruct (mb_fit k chunk (ms_mmd s) X) as [b [u|e]]; cbn [fst]; split; assumption.
+    - cbn [fst]. unfold ms_reset, wq_inv, cq_clear, cq_init. cbn [ms_w ms_q q_max]. split; assumption.
+    - unfold ms_update. destruct (ms_ref s); cbn [fst]; [|split; assumption].
+      destruct (cq_enqueue (ms_q s) v) as [[q el]|e] eqn:E; cbn [fst].
+      + apply cq_enqueue_max in E.
+        destruct (ms_n s + 1 <? ms_w s)%Z; cbn [fst]; unfold wq_inv; cbn [ms_w ms_q]; split; congruence.
+      + unfold wq_inv. cbn [ms_w ms_q]. split; assumption.
+  Qed.
+  Lemma wq_inv_run : forall w h s, wq_inv w s -> wq_inv w (fst (ms_run k chunk s h)).
+  Proof.
+    intros w h; induction h as [|e r IH]; intros s H; [exact H|]. cbn [ms_run].
+    pose proof (wq_inv_step w s e H) as H1.
+    destruct (ms_step k chunk s e) as [s1 o]. cbn [fst] in H1. specialize (IH s1 H1).
+    destruct (ms_run k chunk s1 r) as [s2 os]. exact IH.
+  Qed.
+
+  Lemma ms_run_app : forall h1 h2 s,
+    snd (ms_run k chunk s (h1 ++ h2)) =
+    snd (ms_run k chunk s h1) ++ snd (ms_run k chunk (fst (ms_run k chunk s h1)) h2).
+  Proof.
+    induction h1 as [|e r IH]; intros h2 s; [reflexivity|]. cbn [app ms_run].
+    destruct (ms_step k chunk s e) as [s1 o]. specialize (IH h2 s1).
+    destruct (ms_run k chunk s1 (r ++ h2)) as [s2 os]. destruct (ms_run k chunk s1 r) as [s3 os3].
+    cbn [fst snd app] in *. rewrite IH. reflexivity.
+  Qed.
+  Lemma ms_run_out_length : forall h s, length (snd (ms_run k chunk s h)) = length h.
+  Proof.
+    induction h as [|e r IH]; intros s; [reflexivity|]. cbn [ms_run].
+    destruct (ms_step k chunk s e) as [s1 o]. specialize (IH s1).
+    destruct (ms_run k chunk s1 r) as [s2 os]. cbn [snd length] in *. rewrite IH. reflexivity.
+  Qed.
+
+  (** After ANY history [pre] (no hypothesis on shapes, kernels or exceptions raised on the
+      way), [reset] leaves a detector that answers every later sequence of calls exactly as a
+      newly constructed detector does — the same values bit for bit in binary64, the same
+      exceptions.  (Holds because the repaired reset also clears the ring.) *)
+  Theorem mmd_reset_fresh_exact : forall w s0 pre post, ms_new w chunk = Ok s0 ->
+    skipn (S (length pre)) (snd (ms_run k chunk s0 (pre ++ SReset :: post))) =
+    snd (ms_run k chunk s0 post).
+  Proof.
+    intros w s0 pre post Hnew.
+    assert (H0 : wq_inv w s0 /\ s0 = {| ms_n := 0; ms_q := cq_init w; ms_ref := None; ms_mmd := mb_new; ms_w := w |}).
+    { unfold ms_new in Hnew. destruct (valid_chunk chunk); [|discriminate]. cbn [bind] in Hnew.
+      destruct (w <? 1)%Z; [discriminate|]. inversion Hnew. split; [split|]; reflexivity. }
+    destruct H0 as (Hi0 & Es0).
+    rewrite ms_run_app. cbn [ms_run ms_step]. 
+    set (s := fst (ms_run k chunk s0 pre)).
+    assert (Hs : wq_inv w s) by (apply wq_inv_run; exact Hi0).
+    assert (Hsim : st_sim (ms_reset s) s0).
+    { destruct Hs as (Hw & Hq). rewrite Es0. unfold st_sim, ms_reset, cq_clear.
+      cbn [ms_n ms_q ms_ref ms_w ms_mmd]. rewrite Hq, Hw.
+      repeat (split; [reflexivity|]). intros Hne. contradiction. }
+    pose proof (st_sim_run post _ _ Hsim) as Hrun.
+    destruct (ms_run k chunk (ms_reset s) post) as [s2 os]. cbn [snd] in *.
+    replace (S (length pre)) with (length (snd (ms_run k chunk s0 pre) ++ [OReset (A:=A)]))
+      by (rewrite app_length, ms_run_out_length; cbn [length]; lia).
+    change (OReset :: os) with ([OReset (A:=A)] ++ os). rewrite app_assoc.
+    rewrite skipn_app, skipn_all, Nat.sub_diag. cbn [app skipn]. exact Hrun.
+  Qed.
+
+  (** the state itself: reset gives [ms_new]'s state except for the dead cached term *)
+  Theorem mmd_reset_state : forall w s0 pre, ms_new w chunk = Ok s0 ->
+    let s := ms_reset (fst (ms_run k chunk s0 pre)) in
+    ms_n s = ms_n s0 /\ ms_q s = ms_q s0 /\ ms_ref s = ms_ref s0 /\ ms_w s = ms_w s0 /\
+    mb_ref (ms_mmd s) = mb_ref (ms_mmd s0).
+  Proof.
+    intros w s0 pre Hnew.
+    assert (H0 : wq_inv w s0 /\ s0 = {| ms_n := 0; ms_q := cq_init w; ms_ref := None; ms_mmd := mb_new; ms_w := w |}).
+    { unfold ms_new in Hnew. destruct (valid_chunk chunk); [|discriminate]. cbn [bind] in Hnew.
+      destruct (w <? 1)%Z; [discriminate|]. inversion Hnew. split; [split|]; reflexivity. }
+    destruct H0 as (Hi0 & Es0).
+    destruct (wq_inv_run w pre s0 Hi0) as (Hw & Hq).
+    cbn zeta. unfold ms_reset, cq_clear, mb_reset.
+    cbn [ms_n ms_q ms_ref ms_w ms_mmd mb_ref]. rewrite Hq, Hw. rewrite Es0.
+    cbn [ms_n ms_q ms_ref ms_w ms_mmd mb_ref mb_new]. repeat split; reflexivity.
+  Qed.
+End ResetFresh.
